@@ -245,21 +245,24 @@ class NumericalGradient(Operator):
         dfdx = self.domain.zero()
         dx = self.domain.zero()
 
+        # Multi-indices of all entries, so that spaces with several axes
+        # work as well (a flat index would address the first axis only)
+        indices = list(np.ndindex(*self.domain.shape))
         if self.method == 'backward':
             fx = self.functional(x)
-            for i in range(self.domain.size):
-                dx[i - 1] = 0  # reset step from last iteration
+            for k, i in enumerate(indices):
+                dx[indices[k - 1]] = 0  # reset step from last iteration
                 dx[i] = self.step
                 dfdx[i] = fx - self.functional(x - dx)
         elif self.method == 'forward':
             fx = self.functional(x)
-            for i in range(self.domain.size):
-                dx[i - 1] = 0  # reset step from last iteration
+            for k, i in enumerate(indices):
+                dx[indices[k - 1]] = 0  # reset step from last iteration
                 dx[i] = self.step
                 dfdx[i] = self.functional(x + dx) - fx
         elif self.method == 'central':
-            for i in range(self.domain.size):
-                dx[i - 1] = 0  # reset step from last iteration
+            for k, i in enumerate(indices):
+                dx[indices[k - 1]] = 0  # reset step from last iteration
                 dx[i] = self.step / 2
                 dfdx[i] = self.functional(x + dx) - self.functional(x - dx)
         else:
